@@ -228,4 +228,15 @@ theorem depthwise_after_concat_has_no_masker :
     ((computeLabels p).map fun l => (groupOf p l (l.getD 3 0)).isSome) = some false := by
   decide +kernel
 
+/-- a layer invoked twice whose call sites are fed by concats: `g = L(cat(a1, x)); g2 = L(cat(a2, x))` —
+the producers `a1`, `a2` keep different maskers, so the tensors fed to the two call sites carry different alive
+features (here 2 vs 3 of 3) while the layer has one set of weights -/
+theorem layer_twice_fed_by_concat_unsound :
+    let p : Prog := [.input 1, .conv 0 2 {}, .cat [1, 0], .conv 0 2 {}, .cat [3, 0], .conv 2 2 {},
+                     .reuse 4 5 2 2 {}, .cat [5, 6], .flat 7 1, .lin 8 2 {}, .output 9]
+    let α : ℕ → List Rat := fun g => if g = 1 then [0, 1] else [1, 1]
+    supported p = false ∧ wellShaped p = true ∧
+    ((computeLabels p).map fun l => ((aliveMasks p l α).getD 2 [], (aliveMasks p l α).getD 4 []))
+      = some ([false, true, true], [true, true, true]) := by decide +kernel
+
 end PlinioVerif.C09
